@@ -922,8 +922,15 @@ def check_inert_handlers(ck, rule, scopes=("worker", "notify")):
         frun = prog.func("threadpool", "ThreadPool.__run")
         targets.append((frun, lambda c: isinstance(c.func, ast.Attribute) and c.func.attr == "execute", "the task"))
     if "notify" in scopes:
+        is_cb = lambda c: (isinstance(c.func, ast.Name) and "callback" in c.func.id) or (isinstance(c.func, ast.Attribute) and "callback" in c.func.attr)
         fno = prog.func("threadpool", "FutureResult.__notify")
-        targets.append((fno, lambda c: isinstance(c.func, ast.Name) or (isinstance(c.func, ast.Attribute) and "callback" in c.func.attr), "the callback"))
+        # (the delivery may sit in a helper of the notifier)
+        for m in prog.cls("threadpool", "FutureResult").methods.values():
+            if any(isinstance(t, ast.Try) and t.handlers and any(isinstance(c, ast.Call) and is_cb(c) for st in t.body for c in ast.walk(st))
+                   for t in ast.walk(m.node)):
+                fno = m
+                break
+        targets.append((fno, is_cb, "the callback"))
     found = 0
     for (fi, is_target, what) in targets:
         tries = []
@@ -967,3 +974,60 @@ def check_inert_handlers(ck, rule, scopes=("worker", "notify")):
                                        fi.loc(x))
     if found < len(targets):
         raise AnalysisError("anchor vanished: containment handlers (%d found)" % found)
+
+
+# ---------------------------------------------------------------------------
+# Cross-call state of the client-side classes (shared by C19.3 / C06.8)
+# ---------------------------------------------------------------------------
+CLIENT_STATE = {
+    # class -> fields that may be written outside __init__ (each one read from the code: connection cache, header stack,
+    # parser buffer of one response, the job list / call description a MultiCall is made to accumulate)
+    "TransportMixIn": {"verbose", "additional_headers"},
+    "UnixTransport": {"_connection", "_extra_headers"},
+    "Transport": set(), "SafeTransport": set(),
+    "JSONTarget": {"data"}, "JSONParser": set(),
+    "ServerProxy": set(), "_Method": set(), "_Notify": set(),
+    "MultiCall": {"_job_list"}, "MultiCallMethod": {"method", "params"}, "MultiCallNotify": set(), "MultiCallIterator": set(),
+}
+_MUTATING = ("append", "extend", "insert", "update", "setdefault", "add", "pop", "popitem", "remove", "discard", "clear", "sort", "reverse")
+
+
+def check_client_state(ck, rule, classes=None):
+    """No method of a client-side class (other than __init__) keeps data of one exchange on the long-lived object: every store
+    `self.F = ...`, `self.F[k] = ...`, `self.F.G = ...` and every mutating call `self.F.append(...)` targets a field of the
+    allowed cross-call state table."""
+    prog = ck.prog
+    n3 = 0
+    for cname, allowed in CLIENT_STATE.items():
+        if classes is not None and cname not in classes:
+            continue
+        if "jsonrpc." + cname not in prog.classes:
+            continue
+        ci = prog.cls("jsonrpc", cname)
+        for fi in ci.methods.values():
+            if fi.name == "__init__":
+                continue
+            gg = cfg_of(fi)
+            for n in gg.live_nodes():
+                hits = []
+                if n.kind == "stmt" and isinstance(n.ast, (ast.Assign, ast.AugAssign)):
+                    for tg in (n.ast.targets if isinstance(n.ast, ast.Assign) else [n.ast.target]):
+                        for sub in ([tg] + (list(tg.elts) if isinstance(tg, ast.Tuple) else [])):
+                            base = sub
+                            via = ""
+                            while isinstance(base, (ast.Attribute, ast.Subscript)) and not (isinstance(base, ast.Attribute) and dump(base.value) == "self"):
+                                via = "through "
+                                base = base.value
+                            if isinstance(base, ast.Attribute) and dump(base.value) == "self":
+                                hits.append((base.attr, "%sstore" % via))
+                for c in node_calls(n):
+                    f = c.func
+                    if isinstance(f, ast.Attribute) and f.attr in _MUTATING and isinstance(f.value, ast.Attribute) and dump(f.value.value) == "self":
+                        hits.append((f.value.attr, "call .%s()" % f.attr))
+                for (attr, how) in hits:
+                    n3 += 1
+                    ck.require(attr in allowed, rule, "%s: store self.%s" % (q.fn(fi), attr), "allowed cross-call state",
+                               "`%s` keeps per-call data on the long-lived %s object (%s of self.%s; allowed cross-call state: %s): a later call "
+                               "can observe a previous response" % (q.stmt_text(n)[:50], cname, how, attr, sorted(allowed)), q.loc(fi, n))
+    ck.stat("client_state_stores", n3)
+    return n3
